@@ -138,7 +138,7 @@ fn render_proj(steps: &[PStep], globals: &[(String, String)], pipeline_inv: bool
     let sp = |rng: &mut Rng| *rng.pick(&[" ", "  ", "\n", "\t", " \n ", "\r\n"]);
     let mut out = String::new();
     if rng.chance(0.15) {
-        out += "# a PROJ pipeline\n";
+        out += *rng.pick(&["# a PROJ pipeline\n", "# geographic -> UTM, valid for lat > 54 and lon < 16\n", "# <draft>\n"]);
     }
     if pipeline {
         let mut head: Vec<String> = vec!["proj=pipeline".into()];
@@ -185,7 +185,7 @@ fn render_proj(steps: &[PStep], globals: &[(String, String)], pipeline_inv: bool
             out += &plus(rng, &x);
         }
         if rng.chance(0.1) {
-            out += " # comment\n";
+            out += *rng.pick(&[" # comment\n", " # in -> out\n", " # x < 5\n"]);
         }
     }
     out
@@ -473,6 +473,20 @@ fn other(h: &H, idx: u64, rng: &mut Rng) {
             1 => format!("{}proj=pipeline {}step {step}", if plus { "+" } else { "" }, if plus { "+" } else { "" }),
             _ => format!("{p}proj=pipeline {p}step {p}proj=noop {p}step {step}", p = if plus { "+" } else { "" }),
         });
+    }
+    // a nested pipeline, its proj=pipeline element anywhere in its step
+    for _ in 0..2 {
+        let mut words: Vec<String> = vec!["proj=pipeline".into()];
+        if rng.chance(0.6) {
+            words.push("inv".into());
+        }
+        if rng.chance(0.4) {
+            words.push("ellps=intl".into());
+        }
+        rng.shuffle(&mut words);
+        let p = if rng.chance(0.5) { "+" } else { "" };
+        let nested: String = words.iter().map(|w| format!("{p}{w}")).collect::<Vec<_>>().join(" ");
+        refused.push(format!("{p}proj=pipeline {p}step {p}proj=utm {p}zone=32 {p}step {nested} {p}step {p}proj=utm {p}zone=33"));
     }
     for t in &refused {
         h.eval(1);
